@@ -416,8 +416,12 @@ def run_cases(res, cases, known, max_samples=4):
             else:
                 corr_broken = True
         if ofail is not None:
-            if c.finding and c.finding in known_sigs:
-                res.known_hits[c.finding] = res.known_hits.get(c.finding, 0) + 1
+            sig = c.finding
+            m = re.match(r"\[finding:([^\]]+)\]", ofail)
+            if m:       # the oracle itself classified the failure (value errors are never classified)
+                sig = m.group(1)
+            if sig and sig in known_sigs:
+                res.known_hits[sig] = res.known_hits.get(sig, 0) + 1
             else:
                 res.violation({"property": res.prop, "kind": "oracle-failure", "class": c.cls,
                                "case": c.line or c.desc, "impl_outcome": io, "model_outcome": mo,
